@@ -283,8 +283,8 @@ def one_chunks_call(strat, dfmt, order, size, n, rot, src):
       type(chunks).size = 5
       eff = 5
     kw = {"dfmt": dfmt, "padval": pad}
-    if rot == 1 and dfmt in "fd":
-      del kw["padval"]                       # documented default 0.
+    if rot == 1 and (dfmt in "fd" or n % (size or 5) == 0):
+      del kw["padval"]                       # documented default 0. (for the integer formats: only where no padding is needed)
     if size is not None: kw["size"] = size
     if order is not None: kw["byte_order"] = order
     data = list(seq) if src == "list" else (v for v in seq)
